@@ -71,7 +71,11 @@ def check_construction(case, rec):
                 return
     # the flag in its legal forms: Python bool, NumPy bool, integer
     flag = [opt, np.bool_(opt), int(opt)][case['seed'] % 3]
-    mpo = (ptn.spin_molecular_hamiltonian_mpo if spin else ptn.molecular_hamiltonian_mpo)(t, v, optimize=flag)
+    if opt and (case['seed'] // 3) % 2:
+        mpo = (ptn.spin_molecular_hamiltonian_mpo if spin else ptn.molecular_hamiltonian_mpo)(t, v)     # optimize=True is the documented default
+        rec.label('default_optimize_argument')
+    else:
+        mpo = (ptn.spin_molecular_hamiltonian_mpo if spin else ptn.molecular_hamiltonian_mpo)(t, v, optimize=flag)
     if not isinstance(flag, bool):
         # the spelling of the flag must not matter: same construction as with the Python bool (construction is deterministic)
         mpo_b = (ptn.spin_molecular_hamiltonian_mpo if spin else ptn.molecular_hamiltonian_mpo)(t, v, optimize=bool(opt))
